@@ -5,7 +5,10 @@ import contracts.chunk as CH
 import contracts.standins_superrun as B
 import contracts.storage as ST
 
-PROVED = [SR.pop_out_empty, SR.split_runs, SR.split_runs_none, SR.sorted_check, SR.merge_subruns, SR.merge_superrun, SR.superrun_transformation, SR.define_run, CH.chunk_split, ST.write_run_metadata]
+import contracts.context as CX
+import contracts.lineage as LN
+PROVED = [SR.pop_out_empty, SR.split_runs, SR.split_runs_none, SR.sorted_check, SR.merge_subruns, SR.merge_superrun, SR.superrun_transformation, SR.define_run, CH.chunk_split, ST.write_run_metadata,
+          CX.check_cache, LN.datakey_run_id]
 
 PROPERTY = Property(
     "C14", "proof",
